@@ -271,10 +271,75 @@ func ExploreScenario(seed int64, p Profile, x *Explorer) {
 			x.between()
 			request(A, x.R.Intn(6))
 		}
+	case "thr":
+		// every client holds a few resources; then a system reset whose governed requests (re-fetches, re-access checks)
+		// exceed the throttle, disturbed while they wait: a client leaves, unsubscribes, a second reset arrives
+		cls := x.Run.W.Clients
+		for _, c := range cls {
+			for k := 1 + x.R.Intn(3); k > 0; k-- {
+				x.sendFrame(c, "subscribe", x.R.Intn(p.Resources), "")
+			}
+		}
+		x.settle()
+		for round := 1 + x.R.Intn(2); round > 0; round-- {
+			x.sysReset(x.R.Pick("access", "access", "both", "resources"), "test.>")
+			x.internalSteps(x.R.Intn(8))
+			switch x.R.Intn(6) {
+			case 0, 1:
+				c := cls[x.R.Intn(len(cls))]
+				if !cClosed(x.Run, c) && len(cls) > 1 {
+					x.Run.Do(gw.Action{A: "disconnect", C: c.Label})
+					closed[x.Run][c.Label] = true
+				}
+			case 2:
+				c := cls[x.R.Intn(len(cls))]
+				n := x.R.Intn(p.Resources)
+				if !cClosed(x.Run, c) && x.outstanding[c.Label+" "+name(n)] == 0 {
+					x.sendFrame(c, "unsubscribe", n, "")
+				}
+			case 3:
+				x.sysReset(x.R.Pick("access", "both"), x.R.Pick("test.>", name(x.R.Intn(p.Resources))))
+			case 4:
+				c := cls[x.R.Intn(len(cls))]
+				if !cClosed(x.Run, c) {
+					x.sendFrame(c, "subscribe", x.R.Intn(p.Resources), "")
+				}
+			}
+			x.settle()
+		}
 	}
 	x.slowR = -1
 	x.internalSteps(-1)
 	x.quiesce("final")
+}
+
+// sysReset announces a system reset; for resources it first changes one matched resource silently.
+func (x *Explorer) sysReset(which string, pat string) {
+	if which != "access" {
+		// only a resource the reset announces may have changed silently
+		n := x.R.Intn(x.P.Resources)
+		if strings.HasPrefix(pat, "test.r") {
+			n, _ = strconv.Atoi(pat[6:])
+		}
+		x.silentMutation(n)
+	}
+	if which != "resources" && x.P.Denials {
+		for i := 0; i < x.P.Resources; i++ {
+			if x.R.Intn(3) == 0 {
+				x.changePolicy(name(i))
+			}
+		}
+	}
+	var payload string
+	switch which {
+	case "resources":
+		payload = `{"resources":["` + pat + `"]}`
+	case "access":
+		payload = `{"access":["` + pat + `"]}`
+	default:
+		payload = `{"resources":["` + pat + `"],"access":["` + pat + `"]}`
+	}
+	x.Run.Do(gw.Action{A: "sysevent", Ev: "reset", Text: payload, Abs: "reset\t" + which + "\t" + fmt.Sprintf("%x", pat)})
 }
 
 var _ = server.Config{}
